@@ -147,6 +147,8 @@ def check_instance(S, o, inp, schema_name):
 
 def impl(case):
     kind = case["kind"]
+    if kind == "shrink":
+        return _impl_shrink(case)
     if kind == "nf":
         strings = case["strings"]
         nf = G.normal_forms(strings)
@@ -231,6 +233,58 @@ def impl(case):
     raise ValueError(kind)
 
 
+def _impl_shrink(req):
+    """Greedy structural shrinking inside one worker (the oracle is re-run on every candidate)."""
+    case, want = req["case"], req["want"]
+    budget = [req.get("budget", 400)]
+
+    def fails(c):
+        budget[0] -= 1
+        try:
+            r = impl(c)
+        except Exception:
+            return None
+        ds = [d for d in r["oracle"] if d.get("kind") == want and (not req.get("form") or d.get("form") == req.get("form"))]
+        return ds[0] if ds else None
+
+    det = fails(case)
+    if det is None:
+        return dict(out=None, oracle=[], tags=[], case=case, detail=None)
+    cur = case
+    if len(cur["inputs"]) > 1:
+        for inp in cur["inputs"]:
+            c = dict(cur, inputs=[inp])
+            d = fails(c)
+            if d:
+                cur, det = c, d
+                break
+    inp = _shrink_json(cur["inputs"][0], lambda c: fails(dict(cur, inputs=[c])), budget)
+    cur = dict(cur, inputs=[inp])
+    if cur["kind"] == "fam":
+        for cd_i in range(len(cur["fam"])):
+            for part in ("fields", "consts"):
+                j = 0
+                while j < len(cur["fam"][cd_i][part]) and budget[0] > 0:
+                    fam2 = json.loads(json.dumps(cur["fam"]))
+                    del fam2[cd_i][part][j]
+                    c = dict(cur, fam=fam2)
+                    if fails(c):
+                        cur = c
+                    else:
+                        j += 1
+        # drop classes nobody refers to
+        i = len(cur["fam"]) - 1
+        while i >= 0 and budget[0] > 0:
+            if cur["fam"][i]["name"] != cur["root"]:
+                fam2 = [cd for k, cd in enumerate(cur["fam"]) if k != i]
+                c = dict(cur, fam=fam2)
+                if fails(c):
+                    cur = c
+            i -= 1
+    det = fails(cur) or det
+    return dict(out=None, oracle=[], tags=[], case=cur, detail=det)
+
+
 def _inst_tags(fam, root, inp):
     tg = set()
     kinds = json.dumps(fam)
@@ -255,7 +309,7 @@ def _inst_tags(fam, root, inp):
 
 # ----------------------------------------------------------------------------- model lines
 def lines(case):
-    if case["kind"] != "fam":
+    if case["kind"] != "fam" or case.get("nomodel"):
         return []
     fam = case["fam"]
     strs = set()
@@ -281,7 +335,7 @@ def lines(case):
 
 
 def compare(case, ir, mo):
-    if case["kind"] != "fam":
+    if case["kind"] != "fam" or case.get("nomodel"):
         return None
     k = len(mo) - 2 * len(case["inputs"])
     mo = mo[k:]
@@ -350,7 +404,12 @@ def focused_families():
                   dict(name="Cc", parent="Bb", extra="ignore", fields=[["w", ["float"], None], ["name", ["nes"], None]], consts=[["@type", "Leaf"]], overrides=[], mandatory=[])], "Cc",
                  [{"w": 1.5, "name": "n", "kids": [{"name": "k1"}, {"kids": [{"name": "deep", "junk": 1}]}], "ref": {"id": "x"}, "junk": [1]},
                   {"w": 0.0, "name": "0", "ref": "x"}, {"w": -0.0, "name": "n", "kids": []}]))
-    return [dict(kind="fam", fam=f, root=r, inputs=i) for f, r, i in fams]
+    out = [dict(kind="fam", fam=f, root=r, inputs=i) for f, r, i in fams]
+    # two YAML hazards of ruamel.yaml reached through BaseModelPlus.yaml() (fixed probes, kept out of the random pools)
+    one = [dict(name="Aa", parent=None, extra=None, fields=[["s", O(["nes"]), None]], consts=[], overrides=[], mandatory=[])]
+    out.append(dict(kind="fam", fam=one, root="Aa", inputs=[{"s": "a\x85b"}], nomodel=True))
+    out.append(dict(kind="fam", fam=one, root="Aa", inputs=[{"a b " * 20 + "x": 1}], nomodel=True))
+    return out
 
 
 def gen_inst_cases(ctx, names):
@@ -428,6 +487,12 @@ def signature(case, detail):
     if kind == "normal-form-not-fixed":
         cause = ":offset-unit" if "offset unit" in str(detail.get("error", "")).lower() else ""
         return "%s:%s:%s%s" % (ID, kind, detail.get("type"), cause)
+    if detail.get("form") == "yaml" and kind in ("parse-of-own-output-raises", "roundtrip-differs"):
+        strs = G.strings_in(case.get("inputs", [detail.get("input")]))
+        if any("\x85" in x for x in strs):
+            return "%s:yaml-nel-character" % ID
+        if "mapping values are not allowed" in str(detail.get("error", "")) and any(len(x) > 80 and " " in x for x in strs):
+            return "%s:yaml-long-key" % ID
     where = case.get("schema") if case.get("kind") in ("inst", "inst1") else "generated"
     return "%s:%s:%s" % (ID, kind, where)
 
@@ -479,46 +544,14 @@ def _shrink_json(obj, test, budget):
 def shrink(ctx, case, detail):
     if not isinstance(detail, dict) or case.get("kind") not in ("fam", "inst", "inst1"):
         return case, detail
-    want = detail.get("kind")
     if case["kind"] in ("inst", "inst1"):
-        inp = detail.get("input")
-        if not isinstance(inp, dict):
+        if not isinstance(detail.get("input"), dict):
             return case, detail
-        mk = lambda i: dict(kind="inst1", schema=case["schema"], inputs=[i])  # noqa: E731
-        if not _fails(mk(inp), want):
-            return case, detail
-        inp = _shrink_json(inp, lambda c: _fails(mk(c), want), [120])
-        return mk(inp), _fails(mk(inp), want) or detail
-
-    cur, det = case, detail
-    # single input
-    for inp in case["inputs"]:
-        c = dict(case, inputs=[inp])
-        d = _fails(c, want)
-        if d:
-            cur, det = c, d
-            break
-    inp = _shrink_json(cur["inputs"][0], lambda c: _fails(dict(cur, inputs=[c]), want), [60])
-    cur = dict(cur, inputs=[inp])
-    # drop fields / constants not needed
-    tests = 0
-    for cd_i in range(len(cur["fam"])):
-        for part in ("fields", "consts"):
-            j = 0
-            while j < len(cur["fam"][cd_i][part]) and tests < 60:
-                fam2 = json.loads(json.dumps(cur["fam"]))
-                del fam2[cd_i][part][j]
-                c = dict(cur, fam=fam2)
-                tests += 1
-                try:
-                    d = _fails(c, want)
-                except Exception:
-                    d = None
-                if d:
-                    cur, det = c, d
-                else:
-                    j += 1
-    return cur, _fails(cur, want) or det
+        case = dict(kind="inst1", schema=case["schema"], inputs=[detail["input"]])
+    r = pool.run_one(MOD, "impl", dict(kind="shrink", case=case, want=detail.get("kind"), form=detail.get("form")), timeout=600)
+    if "ok" in r and r["ok"].get("detail"):
+        return r["ok"]["case"], r["ok"]["detail"]
+    return case, detail
 
 
 def search(ctx):
